@@ -540,6 +540,18 @@ IN_SUPER_CASES = [
 
 
 # ---------------------------------------------------------------------------------------
+def impl(lines):
+    """vlib.impl, tolerating the short window in which another check's `cargo build` relinks the
+    shared harness binary."""
+    import time
+    for attempt in range(60):
+        try:
+            return vlib.impl(lines)
+        except OSError:
+            time.sleep(2)
+    return vlib.impl(lines)
+
+
 def run_extractor():
     p = subprocess.run([sys.executable, os.path.join(vlib.VERIF, "tools", "extract_precedence.py")],
                        stdout=subprocess.PIPE, stderr=subprocess.STDOUT)
@@ -552,7 +564,7 @@ def check_src_cases(rep, cases, label):
     """cases: dicts with key, src (bytes), optional expect (erased tree string or 'ERR'), optional ltoks
     (token string predicted by the Lean layout).  Runs implementation + model, applies all oracles."""
     lines = ["parse src " + vlib.hx(c["src"]) for c in cases]
-    io = vlib.impl(lines)
+    io = impl(lines)
     mlines = []
     midx = []
     for i, (c, a) in enumerate(zip(cases, io)):
@@ -763,7 +775,7 @@ def malformed_cases(rep, base_tokens, n):
         toks = [(k, 3 * i, 3 * i + 2 if k != "E" else 3 * i) for i, k in enumerate(kinds)]
         cases.append({"key": "malformed:" + show_tokens(toks), "toks": toks})
     lines = ["parse toks " + show_tokens(c["toks"]) for c in cases]
-    io = vlib.impl(lines)
+    io = impl(lines)
     mo = vlib.model(lines)
     for c, a, b in zip(cases, io, mo):
         rep.bump("malformed")
